@@ -227,7 +227,17 @@ def check_sim(case) -> Result:
             if not (isinstance(err, ValueError) and 'simultaneously applicable' in str(err)):
                 res.bad(f'C15/simulation-raises/{type(err).__name__}', f'controlled run raised {type(err).__name__}: {err}')
         return res
-    tr = traces[-1]
+    from vp import simprops as SP
+    segs = SP.segments(case, traces)
+    for tr, _dts in segs:
+        _check_epoch(case, mdl, tr, res)
+        if res.violations:
+            break
+    res.classes += tuple(sorted({'rule:' + r['rule'] for r in case['control']})) + (f'epochs:{len(segs)}',)
+    return res
+
+
+def _check_epoch(case, mdl, tr, res):
     if not I.complete(tr) or not I.finite_trace(tr):
         res.classes += ('incomplete-or-nonfinite-trace',)
         return res
@@ -262,10 +272,9 @@ def check_sim(case) -> Result:
                             f'instant {k}: StartLimitCurrent in force (D={pwm[k]!r}, unclipped) but recorded current '
                             f'{cur[k]!r} A differs from the limit {ilim!r} A')
                     break
-    res.hist['limit-instants'] = n_limit
-    res.hist['unclipped-applied-instants'] = applied_unclipped
-    res.nontrivial = applied_unclipped > 0
-    res.classes += tuple(sorted({'rule:' + r['rule'] for r in case['control']}))
+    res.hist['limit-instants'] = res.hist.get('limit-instants', 0) + n_limit
+    res.hist['unclipped-applied-instants'] = res.hist.get('unclipped-applied-instants', 0) + applied_unclipped
+    res.nontrivial = res.nontrivial or applied_unclipped > 0
     return res
 
 
@@ -353,7 +362,8 @@ def s_direct(draw):
                 tgt = U.si('AngularPosition', *r['target'])
                 stt['theta'] = G.qty('AngularPosition', tgt * (1 + side * off), draw(G.s_unit('AngularPosition')))
             wscale = mdl.w0 * mdl.cum_ratio(0) / mdl.cum_ratio(r['tach']) if r['tach'] else mdl.w0
-            stt['speed'] = G.qty('AngularSpeed', wscale * draw(st.floats(0, 1.1)), draw(G.s_unit('AngularSpeed')))
+            stt['speed'] = G.qty('AngularSpeed', wscale * draw(st.one_of(st.floats(0, 1.1), st.floats(-0.6, 1.1))),
+                               draw(G.s_unit('AngularSpeed')))
     stt['exact'] = exact
     case['rule'], case['state'] = r, stt
     return case
@@ -395,6 +405,9 @@ def s_sim(draw, max_steps=60):
                           'value': G._duty(draw(st.floats(-1, 1)))})
     case['control'] = rules
     case['history'] = [dict(run, control=True)]
+    if draw(st.integers(0, 2)) == 0:
+        # the same rule objects serve a second epoch after a reset
+        case['history'] += [{'op': 'reset', 'reinit': True}, dict(run, control=True, new_solver=draw(st.booleans()))]
     return case
 
 
